@@ -1757,7 +1757,7 @@ def line_property(lines, j, prog, n):
     return None
 
 
-def char_cuts(lines, prog, is_main, max_lines):
+def char_cuts(lines, prog, is_main, max_lines, n_atoms=0):
     """(line index, column) pairs: inside the value-carrying lines of the last step - before the first number (after the
     label), after its sign / first character, in the middle of a number, with the last digit (of the exponent) missing"""
     N = len(lines)
@@ -1774,7 +1774,8 @@ def char_cuts(lines, prog, is_main, max_lines):
                                                          or any(m in lines[j] for m in MARKERS[prog]))]
     if len(cand) > max_lines:
         st = len(cand) / max_lines
-        cand = sorted({cand[int(k * st)] for k in range(max_lines)} | {cand[-1]})
+        keep = {j for j in cand if n_atoms and line_property(lines, j, prog, n_atoms)}     # never sampled away
+        cand = sorted({cand[int(k * st)] for k in range(max_lines)} | {cand[-1]} | keep)
     out = []
     for j in cand:
         toks = list(FLOAT_RE.finditer(lines[j]))
@@ -1799,7 +1800,7 @@ def stream_char_truncated(ctx, meths, F, sizes, max_lines):
                 full = S.files[target]
                 term_line = max([i for i, l in enumerate(S.files[S.main]) if any(t in l for t in TERMINATION[prog])] or [10 ** 9])
                 P = PNAME[prog]
-                for j, c in char_cuts(full, prog, target == S.main, max_lines):
+                for j, c in char_cuts(full, prog, target == S.main, max_lines, n if target == S.main else 0):
                     materialise(prog, variant, case, S)
                     with open(target, "w") as f:
                         f.write("\n".join(full[:j] + [full[j][:c]]))
